@@ -255,8 +255,12 @@ class Gauss(Distribution):
         return True
 
     def prob_mw(self, mw):
-        if self._sigma < 1e-6 and abs(self._mu - mw) < 1e-6:
-            return 1.0
+        if self._sigma < 1e-6:
+            if isinstance(mw, gbigsmiles.mol_prob.RememberAdd):
+                # Point mass at mu: probability of the interval (previous, value]
+                return float(mw.previous < self._mu <= mw.value)
+            if abs(self._mu - mw) < 1e-6:
+                return 1.0
         return super().prob_mw(mw)
 
 
